@@ -96,4 +96,4 @@ def run(chk):
                        'damaged input: violation only if the library returns without error a proper prefix of the payload that the reference does not accept; other divergences are counted, not judged']
     return chk.finish('fault_enumeration',
                       'Python-generated corpus: payload sizes {0,1,100,10239,10240,10241,30000,2^20-1,2^20,2^20+1,(thorough: 3*2^20+17 ...)} high and low entropy x 1..6 concatenated streams (empty and tiny streams, first-stream compressed length = 0,1,2,3,-2,-1 mod 5000 and 0,1,-1 mod 4096/100 as far as a first stream of that size is found - the classes 1,-2,-1 mod 5000 for bzip2 and -1 mod 5000, 0 mod 4096 for gzip are required to be present) x {gzip,bzip2}; every truncation length and every single-byte corruption of files <= 4 KiB, sampled ones incl. stream boundaries +-2 for larger files; each file through the fd and the buffer decompressor under three input buffer sizes (default, 4096, 100; hook H3); library compressor output re-read by the library and by Python; multi-stream OPL through the Reader. distinct = hash of file bytes',
-                      required_counters=['files_with_reference_payload', 'damaged_files', 'damaged_files_rejected', 'library_roundtrips', 'reader_files', 'library_files_verified_by_python'])
+                      required_counters=['files_with_reference_payload', 'damaged_files', 'damaged_files_rejected', 'library_roundtrips', 'library_roundtrips_with_zero_length_writes', 'reader_files', 'library_files_verified_by_python'])
